@@ -256,8 +256,28 @@ func verifC08_alloc() {
 	for i, b := range data {
 		wire = append(wire, b^vIteU8(h.masked, h.key[i%4], 0))
 	}
+	tail := vParam("deflateTail", 0) == 1
+	var first []byte
+	if tail {
+		// the frame with the huge declared length is the LAST frame of a compressed message whose DEFLATE stream has
+		// already ended (a final block) in the frame before it: what is left of the message is only to be skipped
+		first = vBytes("z", 2)
+		f1 := vFrame{opcode: 2, rsv1: true, masked: !client, payload: vStored(first, []int{2}, true)}
+		if f1.masked {
+			copy(f1.key[:], vBytes("key", 4))
+		}
+		h.opcode = 0
+		wire = append(vEncodeFrame(f1), vRefEncodeHeader(h)...)
+		for i, b := range data {
+			wire = append(wire, b^vIteU8(h.masked, h.key[i%4], 0))
+		}
+	}
 	t := vNewTransport(wire)
-	c := vNewConn(t, client, nil, 64, 64)
+	var copts *compressionOptions
+	if tail {
+		copts = vCopts(1)
+	}
+	c := vNewConn(t, client, copts, 64, 64)
 	c.SetReadLimit(-1)
 	vGhostAllocReset()
 	vGhostAllocGuard("C08.alloc.bounded", vParam("allocBound", 65536))
@@ -276,7 +296,11 @@ func verifC08_alloc() {
 	}
 	vReach("C08.alloc.read")
 	vAssert(rerr != nil, "C08.alloc.truncated-fails")
-	vAssert(vAnd(len(got) <= present, vIsPrefix(got, data)), "C08.alloc.delivered-at-most-present")
+	if tail {
+		vAssert(vIsPrefix(got, first), "C08.alloc.delivered-at-most-present")
+	} else {
+		vAssert(vAnd(len(got) <= present, vIsPrefix(got, data)), "C08.alloc.delivered-at-most-present")
+	}
 	vAssert(vGhostAllocMax() <= vParam("allocBound", 65536), "C08.alloc.bounded")
 	c.CloseNow()
 	vObserve("alloc", declared, got)
